@@ -1,4 +1,5 @@
 import ZmqVerif.Lemmas.WorldMaps
+import ZmqVerif.Lemmas.WorldRotation
 /-!
 # C16 — a failed or closed peer is isolated, forgotten, and its connection released
 
@@ -193,5 +194,46 @@ example :
     let r := peerDisconnected [] s [1]
     r.2.peers.map (·.1) = [[2]] ∧ (getPipe r.1 1).wDropped = true ∧ (getPipe r.1 1).rDropped = true := by
   decide
+
+
+/-! ### "no later send is routed to that peer" — against the wires -/
+
+/-- **Round-robin senders (PUSH, DEALER).**  A connection whose pipe belongs to NO registered peer (its peer has been
+forgotten: `C16_forgotten`) is not written to by a send, whatever is still in the rotation queue: the peer chosen is a
+REGISTERED one (`C10_world_rr_choice`), and only its pipe is touched. -/
+theorem C16_world_rr_skips_forgotten (fuel : Nat) (w : World) (sid : Nat) (m : Msg) (s : Socket) (hs : getSock w sid = some s)
+    (p : Nat) (hp : ∀ k wr, ilookup s.peers k = some wr → wr.pipe ≠ p)
+    (w' : World) (f' : FutSt) (o : POut) (h : sendRRPoll fuel w sid m none = (w', f', o))
+    (ho : o = .pending ∨ o = .ready .okUnit ∨ ∃ m', o = .ready (.errReturn m')) :
+    wOf w'.pipes p = wOf w.pipes p := by
+  have hsp := sendRRStart_spec fuel w sid m s hs w' f' o h
+  rcases ho with rfl | rfl | ⟨m', rfl⟩
+  · obtain ⟨a, _, _⟩ := sendRRStart_choice fuel w sid m s hs w' f' _ h
+    obtain ⟨k, st', rest, rfl, _, _⟩ := a rfl
+    simp only at hsp
+    obtain ⟨wr, h1, _, h3⟩ := hsp
+    exact h3 p (fun e => hp k wr h1 e.symm)
+  · cases f' <;> (simp only at hsp; obtain ⟨k, wr, h1, _, h3⟩ := hsp; exact h3 p (fun e => hp k wr h1 e.symm))
+  · cases f' <;> (simp only at hsp; exact hsp.2 p)
+
+/-- **ROUTER.**  A message addressed to an identity that is not (or no longer) registered is refused with an error and
+NOTHING is written to any connection — in particular not to the connection that identity once had. -/
+theorem C16_world_router_skips_forgotten (w : World) (sid : Nat) (t : Bytes) (rest : Msg) (hne : rest ≠ []) (s : Socket)
+    (hs : getSock w sid = some s) (hgone : ilookup s.peers t = none)
+    (w' : World) (f' : FutSt) (o : POut) (h : routerSendStart w sid (t :: rest) = (w', f', o)) :
+    (∃ e, o = .ready (.err e)) ∧ ∀ j, wOf w'.pipes j = wOf w.pipes j := by
+  have hsp := routerSendStart_spec w sid t rest hne s hs w' f' o h
+  cases o with
+  | pending =>
+    cases f' <;> simp only at hsp
+    obtain ⟨_, wr, h1, _⟩ := hsp
+    rw [hgone] at h1; cases h1
+  | ready v =>
+    cases v with
+    | okUnit =>
+      cases f' <;> (simp only at hsp; obtain ⟨wr, h1, _⟩ := hsp; rw [hgone] at h1; cases h1)
+    | err e =>
+      cases f' <;> (simp only at hsp; exact ⟨⟨e, rfl⟩, hsp (.inl hgone)⟩)
+    | _ => cases f' <;> simp only at hsp
 
 end Zmq.C16
